@@ -7,6 +7,9 @@ def T(qcases, tcases, qbudget=240, tbudget=1500, workers=16):
             "thorough": dict(cases=tcases, budget_s=tbudget, workers=workers)}
 
 PROPS = {
+    "C08": dict(sources=["props/C08.cpp"], jls=True, enumerate=True, tiers=T(3000, 40000),
+                assumptions=["'genuinely does not fit' is read as: no contiguous free region of size+4 bytes; the implementation's 8 bytes of marker/disambiguation slack are accepted either way (must succeed with size+12 free)",
+                             "usable capacity after emptying = capacity-12"]),
     "C18": dict(sources=["props/C18.cpp", "props/C18_sw.c"], jls=True, enumerate=True, tiers=T(3000, 40000),
                 assumptions=["bit-serial reference implements the standard CRC-32C definition (check value 0xE3069283 asserted)",
                              "crc32c_arm_neon.c cannot be compiled on this x86 sandbox: not covered"]),
@@ -18,6 +21,10 @@ PROPS = {
 HOOK_COMMITS = []
 
 MANIFEST_TEXT = {
+    "C08": dict(
+        technique="model-based property testing (deque + interval model) on generated alloc/peek/pop sequences, plus complete BFS of the reachable state space for small capacities",
+        level_text="BFS enumerates every reachable (library struct, buffer bytes, model queue) state for capacities 8..20 (quick) / 8..28 (thorough) and applies every operation incl. every size 0..cap+1 from each; generated sequences cover capacities up to 64 KiB with sizes within 16 bytes of the capacity and of the remaining space. FIFO order/size/bytes, region inside the exact-size ASan heap buffer, no overlap with unpopped messages, refusal only without size+4 contiguous bytes, success with size+12, cap-12 allocatable after emptying, count.",
+        level_note="Trusted: the interval model; ASan for out-of-buffer accesses. Exhaustive only for the listed capacities with 0xff payload bytes."),
     "C18": dict(
         technique="exhaustive enumeration of lengths x alignments + rapidcheck differential (SSE4.2 build vs table build vs bit-serial reference)",
         level_text="Complete for every length 0..4096 x alignment 0..7 x 4 content classes, all 8x256 table words against the polynomial and the check value; beyond that generated lengths up to 16 MiB at alignments 0..63 and random headers (hdr variant == general function over 28 bytes) are sampled. Both the SSE4.2 and the JLS_OPTIMIZE_CRC_DISABLE build are compiled from the working tree into one process.",
